@@ -7,7 +7,7 @@ CONSTANTS
   KF_ReaderByteCountIgnoresPartial = FALSE
   MaxLines = 3
   Bodies <- BodiesMX
-  CtxMax = 2
+  CtxMax = 1
   Terms = {"lf"}
   Strats = {"reader", "slice"}
   Paths = {"slow", "fast"}
